@@ -5,6 +5,7 @@ package main
 import (
 	"fmt"
 	"go/ast"
+	"go/constant"
 	"go/token"
 	"go/types"
 	"sort"
@@ -2088,6 +2089,13 @@ func ruleStatementFieldsFromProductions(c *Ctx, rule string) {
 						if s, ok := callee.Type().(*types.Signature); ok && s.Recv() != nil && namedTypeIs(s.Recv().Type(), "sql", "Parser") {
 							okSrc = true
 						}
+					}
+				}
+				// a presence flag (`sel.Distinct = true` behind the keyword test) is what the keyword parsed to: C10's
+				// presence-flag rule judges those
+				if rhs != nil {
+					if cv := f.constOf(rhs); cv != nil && cv.Kind() == constant.Bool {
+						okSrc = true
 					}
 				}
 				key := f.Name + "|field-from-production|" + sel.Sel.Name
